@@ -65,6 +65,45 @@ theorem sched_drop_reason (ign : Rng → Bool) (groups : List (List Yield)) (p :
   · exact Or.inr (Or.inl h)
   · exact Or.inr (Or.inr ⟨x, (hsched x).mpr hx, h⟩)
 
+/-- **Duplicates.** A yielded transaction that the accept loop never visits was eliminated because a transaction
+with precedence (strictly smaller key) carries exactly the same tuple of rewrites. -/
+theorem sched_dup_reason (ign : Rng → Bool) (groups : List (List Yield)) (k : Key)
+    (hk : k ∈ (yielded groups).map (·.1))
+    (hnv : k ∉ (visitedAll ign initState 0 groups).map (·.1)) :
+    ∃ k', k'.lt k = true ∧ k' ∈ (yielded groups).map (·.1) ∧ rwsOf (yielded groups) k' = rwsOf (yielded groups) k := by
+  have := dup_reason_from ign groups initState 0 [] stInv_init k hk hnv
+  simpa [yielded, initState] using this
+
+/-- **Drop reasons, complete.** A yielded transaction none of whose rewrites is scheduled (i) has an ignored
+range, or (ii) contains two distinct overlapping rewrites, or (iii) has the same rewrite tuple as a transaction
+with precedence, or (iv) overlaps a *scheduled* rewrite of a transaction with precedence — and nothing else can
+make the scheduler drop it. -/
+theorem sched_drop_reason_full (ign : Rng → Bool) (groups : List (List Yield)) (k : Key)
+    (hk : k ∈ (yielded groups).map (·.1))
+    (hnone : ∀ rw, (k, rw) ∉ schedule ign groups) :
+    (∃ rw ∈ rwsOf (yielded groups) k, ign rw.r = true) ∨
+    (∃ a ∈ rwsOf (yielded groups) k, ∃ b ∈ rwsOf (yielded groups) k, a ≠ b ∧ a.r.overlaps b.r = true) ∨
+    (∃ k', k'.lt k = true ∧ k' ∈ (yielded groups).map (·.1) ∧ rwsOf (yielded groups) k' = rwsOf (yielded groups) k) ∨
+    (∃ x ∈ schedule ign groups, x.1.lt k = true ∧ ∃ rw ∈ rwsOf (yielded groups) k, rw.r.overlaps x.2.r = true) := by
+  by_cases hv : k ∈ (visitedAll ign initState 0 groups).map (·.1)
+  · obtain ⟨p, hp, rfl⟩ := List.mem_map.mp hv
+    have hprops := (visitedAll_props ign groups initState 0 doneLt_init).2.1 p hp
+    have htup : p.2 = rwsOf (yielded groups) p.1 := hprops.2.1
+    -- the transaction yields at least one rewrite
+    obtain ⟨x, hx, hxk⟩ := List.mem_map.mp hk
+    have hne : ∃ rw ∈ p.2, (p.1, rw) ∉ schedule ign groups := by
+      refine ⟨x.2, ?_, hnone x.2⟩
+      rw [htup, mem_rwsOf, ← hxk]
+      exact hx
+    rcases sched_drop_reason ign groups p hp hne with h | h | h
+    · left; rw [← htup]; exact h
+    · right; left; rw [← htup]; exact h
+    · right; right; right
+      obtain ⟨y, hy, hlt, rw, hrw, hov⟩ := h
+      exact ⟨y, hy, hlt, rw, by rw [← htup]; exact hrw, hov⟩
+  · right; right; left
+    exact sched_dup_reason ign groups k hk hv
+
 /-- The final order is descending by `(range, new text, transaction)`. -/
 theorem sched_sorted (ign : Rng → Bool) (groups : List (List Yield)) :
     (schedule ign groups).Pairwise (fun a b => finalGe a b = true) :=
